@@ -94,7 +94,7 @@ def selector_witness(res):
 def run(res, tier):
     res.rule("C19.1 every documented configuration (dim 1-4 x float/double x Morton/periodic/Hilbert(3D) x auto/explicit block x rebuild x 5 executors x data type =/!= real x 0/1 result values) type-checks")
     res.rule("C19.2 include-guard macros unique across src/")
-    res.rule("C19.3 (thorough) selector header builds with OpenMP+Specx+StarPU all defined")
+    res.rule("C19.3 selector header builds with OpenMP+Specx+StarPU all defined")
     res.trusted += ["g++ 12.2 / clang++ 14 front ends", "witness generator rules/witness.py (configuration -> TU)", "thorough: declaration-only Specx/StarPU stubs"]
     res.assumptions.append("only the build half of the statement is decided; that these configurations then satisfy C01/C06/C13 is not (see DESIGN.md)")
     include_guards(res)
@@ -121,8 +121,7 @@ def run(res, tier):
         seen.add(key)
         res.violation("C19.1.config-compiles", f, "<witness %s>" % nm, key, line, "configuration %s does not compile (%s): %s" % (nm, comp, msg[:240]))
     res.floor("C19.1", len(runs), 20, "witness compilations")
-    if tier == "thorough":
-        selector_witness(res)
+    selector_witness(res)      # one compilation; in both tiers
     res.explanation = ("compile witnesses: each documented template configuration is turned into a TU that constructs the tree, executes, rebuilds and exports; "
                        "the compiler's acceptance is the proof obligation. %d obligations, %d discharged. Include guards: %d headers."
                        % (res.obligations, res.discharged, len([i for i in res.instances if i['rule'] == 'C19.2.include-guard'])))
